@@ -312,6 +312,7 @@ def instantiate(unit, drops, extracted):
             strprefix = False
             rpos = None
             prooftop = None
+            strtryinto = False
             for p in parts[2:]:
                 if p.startswith('nth='):
                     nth = int(p[4:])
@@ -347,6 +348,8 @@ def instantiate(unit, drops, extracted):
                     strlen = p[len('str-len='):]
                 elif p == 'str-prefix':
                     strprefix = True
+                elif p == 'str-try-into-unwrap':
+                    strtryinto = True
                 elif p.startswith('rposition='):
                     rpos = p[len('rposition='):].split(',')
                 elif p.startswith('proof-top='):
@@ -419,6 +422,13 @@ def instantiate(unit, drops, extracted):
                     raise extract.AnchorLost('no `%s.len()` left to rewrite (str-len)' % strlen)
                 kk = ('rewrote `%s.len()` on a `&str` into `%s.as_bytes().len()` (the definition of `str::len` in core; vstd specifies '
                       '`str::as_bytes` and slice `len`, its `str::len` says nothing about bytes)' % (strlen, strlen))
+                drops[kk] = drops.get(kk, 0) + k
+            if strtryinto:
+                item, k = re.subn(r'\b(\w+)\.try_into\(\)\.unwrap\(\)', r'string_try_into_unwrap__(\1)', item)
+                if not k:
+                    raise extract.AnchorLost('no `s.try_into().unwrap()` left to rewrite (str-try-into-unwrap)')
+                kk = ('rewrote `s.try_into().unwrap()` (a `&str` into a heapless `String<N>`) into the trusted wrapper `string_try_into_unwrap__(s)` whose '
+                      'precondition is the panic condition of heapless 0.7 (`s.len() <= N`) — so "the conversion cannot panic" is a proved obligation')
                 drops[kk] = drops.get(kk, 0) + k
             if strprefix:
                 item, k = re.subn(r'&(\w+)\[\.\.(\w+)\]', r'str_prefix__(\1, \2)', item)
